@@ -104,7 +104,11 @@ func (t *Tap) nap(ctx context.Context, d time.Duration) {
 
 func park(g *Gate) {
 	if g != nil {
-		close(g.Arrived)
+		select {
+		case <-g.Arrived: // a gate that is met more than once (never the case for "#n" gates) parks every time
+		default:
+			close(g.Arrived)
+		}
 		<-g.Release
 	}
 }
